@@ -77,6 +77,8 @@ def systematic_cases(rng):
     F64 = {"k": "scalar", "name": "Float64"}; I32 = {"k": "scalar", "name": "Int32"}; I64 = {"k": "scalar", "name": "Int64"}
     arr = lambda item, shape, order=None: {"k": "array", "item": item, "shape": shape, "order": order or list(range(len(shape)))}
     st = lambda name, fields: {"k": "struct", "name": name, "fields": fields}
+    ua = st("SUa", [["x", F64]]); ub = st("SUb", [["p", I64], ["q", I64]])
+    UN = {"k": "union", "name": "U" + hashlib.sha1(json.dumps([ua, ub], sort_keys=True).encode()).hexdigest()[:8], "members": [ua, ub]}
     types = [
         arr(arr(arr(F64, [2]), [3]), [4]),
         arr(arr(arr(I32, [None]), [None]), [None]),
@@ -97,6 +99,14 @@ def systematic_cases(rng):
         st("SOuterIn", [["n", I64], ["m", F64], ["inner", st("SInnerDyn", [["x", I64], ["u", arr(F64, [None])], ["v", arr(I32, [None])], ["w", {"k": "string"}]])], ["t", I32]]),
         arr(st("SInnerDyn2", [["x", I32], ["u", {"k": "string"}], ["y", F64], ["v", arr(I64, [None])]]), [None]),
         st("SOuter2", [["a", I32], ["mid", st("SMid2", [["b", I64], ["in2", st("SIn2", [["c", I32], ["p", arr(F64, [None])], ["q", arr(F64, [None])]])], ["e", F64]])]]),
+        # union slots reached through loads (in variable-size items, behind a table entry, behind a reference, in a 2-D array)
+        arr(st("SNodeU", [["w", arr(F64, [None])], ["u", UN]]), [None]),
+        st("STwoU", [["a", arr(F64, [None])], ["us", arr(UN, [None])], ["k", I64]]),
+        st("SHoldRU", [["n", I64], ["r", {"k": "ref", "target": st("SInU", [["x", I64], ["u", UN]])}]]),
+        arr(UN, [None, None]),
+        # a string created from a capacity that is no multiple of 8, followed by other variable-size parts
+        st("SCapStr", [["name", {"k": "string"}], ["v", arr(F64, [None])], ["z", I64], ["w", arr(I32, [None])]]),
+        st("SF32", [["a", {"k": "scalar", "name": "Float32"}], ["v", arr({"k": "scalar", "name": "Float32"}, [4])], ["d", F64], ["w", arr({"k": "scalar", "name": "Float32"}, [None, 2])]]),
         st("SRefHold", [["n", I64], ["r", {"k": "ref", "target": arr(F64, [None])}], ["q", {"k": "ref", "target": arr(I32, [None])}]]),
         # 3-D arrays of variable-size items under the two cyclic axis orders (not their own inverse), not cubic
         arr({"k": "string"}, [2, 3, None], [1, 2, 0]), arr(arr(F64, [None]), [None, 3, 2], [2, 0, 1]),
@@ -105,6 +115,9 @@ def systematic_cases(rng):
     out = []
     for t in types:
         v = G.gen_value(rng, t)
+        if t.get("name") == "SCapStr":      # the string holds 5 bytes of room (size 13), the parts behind it are not empty
+            v = {"f": [{"s": [], "size": 13, "cap": 5}, {"shape": [2], "items": [G.scalar_value(rng, "Float64") for _ in range(2)]}, G.scalar_value(rng, "Int64"),
+                       {"shape": [3], "items": [G.scalar_value(rng, "Int32") for _ in range(3)]}]}
         if t.get("name") == "SRefHold":     # both references set, targets of 2 and 3 items
             v = {"f": [v["f"][0], {"r": {"shape": [2], "items": [G.scalar_value(rng, "Float64") for _ in range(2)]}},
                        {"r": {"shape": [3], "items": [G.scalar_value(rng, "Int32") for _ in range(3)]}}]}
@@ -285,6 +298,9 @@ def run(ctx):
                         note("C02/%s-differs-from-python/%s" % (call["action"], feat), "%s%s: C gives %s, Python %s" % (call["name"], call["idx"], call["c"], call["py"]), i, call)
                 elif call["action"] == "set" and call.get("py_read") != call["py"]["written"]:
                     note("C07/python-does-not-read-the-value-set-from-C/%s" % feat, call["name"], i, call)
+                if pid == "C07" and call.get("isz") and call.get("rel") is not None and call["rel"] % call["isz"] != 0:
+                    # the model: Alignment.path_off_aligned -- a number sits at a multiple of its own size from the object start
+                    note("C07/misaligned-access-relative-to-the-object-start/%s" % feat, "%s%s stores at object start + %d, a %d-byte number" % (call["name"], call["idx"], call["rel"], call["isz"]), i, call)
     # ---- C15 supporting: host compiler acceptance
     nsyn = 0
     if pid == "C15":
